@@ -482,6 +482,11 @@ class Interp:
                             yield ("raise", key), s2
                             continue
                         if isinstance(base, tuple) and base[0] == "reg":
+                            if ("gone", base[1], key) in s2.hits:
+                                # deleted earlier on this very path and not stored again: a certain KeyError
+                                self.emit(s2, fx, "LOOKUP", t, reg=base[1], key=key, addr=base[2], hit=False, how="del")
+                                yield ("raise", ("exc", "KeyError", (key,), s2.uid())), s2
+                                continue
                             known = (base[1], key) in s2.hits or (isinstance(key, tuple) and key[0] == "keyof")
                             if not known:
                                 s3 = s2.fork()
@@ -489,6 +494,7 @@ class Interp:
                                 yield ("raise", ("exc", "KeyError", (key,), s3.uid())), s3
                             self.emit(s2, fx, "UNREG", t, reg=base[1], key=key, addr=base[2], how="del")
                             s2.hits.discard((base[1], key))
+                            s2.hits.add(("gone", base[1], key))
                             self._drop_reg_facts(s2, base[1])
                         elif isinstance(base, tuple) and base[0] == "regtop":
                             self.emit(s2, fx, "UNREGTOP", t, reg=base[1], key=key)
